@@ -522,6 +522,41 @@ func main() {
 	b.WriteString("\n(* localkms importKeySet: an import without a requested id is stored under the thumbprint id (true) or a random id *)\n")
 	b.WriteString(fmt.Sprintf("Definition repo_import_thumb : bool := %v.\n", importThumb))
 
+	// --- executed part: the real localkms asked about every key type (exec.go) ---
+	rows := execTable(order)
+	col := func(f func(execRow) bool) map[string]bool {
+		m := map[string]bool{}
+		for t, r := range rows {
+			m[t] = f(r)
+		}
+
+		return m
+	}
+
+	b.WriteString("\n(* ---- EXECUTED: what the real localkms did for every key type (harness/c06gen/exec.go) ---- *)\n")
+	b.WriteString("(* encodings of a public key *)\nInductive enc := ERaw | EUncompressed | EPkixDer | ECompressed | ECompositeJSON.\n\n")
+	boolTable("exec_creatable", "Create succeeded", col(func(r execRow) bool { return r.creatable }))
+	boolTable("exec_importable", "ImportPrivateKey succeeded for some kind of private key", col(func(r execRow) bool { return r.importable }))
+	boolTable("exec_stored", "a keyset of the type could be stored (created or imported)", col(func(r execRow) bool { return r.stored }))
+	boolTable("exec_exportable", "ExportPubKeyBytes of a stored keyset succeeded", col(func(r execRow) bool { return r.exportable }))
+	boolTable("exec_thumb_id", "the id given to a created / imported keyset is jwkkid.CreateKID of its exported public key", col(func(r execRow) bool { return r.thumbID }))
+	boolTable("exec_rotatable", "Rotate of a stored keyset (with its own key type) succeeded", col(func(r execRow) bool { return r.rotatable }))
+
+	b.WriteString("(* encoding of the bytes ExportPubKeyBytes returned (classified by length, then by first byte) *)\n")
+	b.WriteString("Definition exec_export_enc (k : ktype) : option enc :=\n  match k with\n")
+
+	for _, t := range order {
+		if r := rows[t]; r.exportable {
+			if r.enc == "EOther" {
+				fail("exec: ExportPubKeyBytes of key type %s returned bytes in no known encoding", t)
+			}
+
+			b.WriteString("  | K_" + t + " => Some " + r.enc + "\n")
+		}
+	}
+
+	b.WriteString("  | _ => None\n  end.\n")
+
 	if *out == "" {
 		fmt.Print(b.String())
 		return
